@@ -241,8 +241,14 @@ class ZeroDurationTask(Task):
 
     def __init__(self, **data) -> None:
         super().__init__(**data)
-        # add an assertion: end = start because the duration is zero
-        self.append_z3_assertion(self._start == self._end)
+        # end = start because the duration is zero; like any other task, it
+        # cannot start before time 0 and it can be optional
+        assertions = [
+            self._start == self._end,
+            self._start >= 0,
+        ]
+
+        self.set_assertions(assertions)
 
 
 class FixedDurationTask(Task):
